@@ -120,8 +120,44 @@ def c05(run, model):
     _mol_run(run, model, {"K7", "C05"}, 0, 0, exhaustive=(3, 4))
 
 
+def label_variants(am, rng):
+    """siblings of a molecule that differ in exactly one isotope / radical label: dropped, changed, moved, added"""
+    out = []
+    n = am.n()
+    both = [i for i in am.mass if i in am.rad]
+    for i in both[:2]:
+        m = dict(am.mass); del m[i]; out.append(AM(am.zs, am.edges, m, am.rad, "variant:drop-mass-keep-rad"))
+        r = dict(am.rad); del r[i]; out.append(AM(am.zs, am.edges, am.mass, r, "variant:drop-rad-keep-mass"))
+    for i in list(am.mass)[:2]:
+        m = dict(am.mass); m[i] = am.mass[i] + 1; out.append(AM(am.zs, am.edges, m, am.rad, "variant:mass+1"))
+        same = [j for j in range(n) if am.zs[j] == am.zs[i] and j not in am.mass]
+        if same:
+            j = rng.choice(same); m = dict(am.mass); v = m.pop(i); m[j] = v
+            r = dict(am.rad)
+            out.append(AM(am.zs, am.edges, m, r, "variant:mass-moved"))
+    for i in list(am.rad)[:1]:
+        r = dict(am.rad); r[i] = 1 + (am.rad[i] % 3); out.append(AM(am.zs, am.edges, am.mass, r, "variant:rad-changed"))
+    if n:
+        i = rng.randrange(n)
+        m = dict(am.mass); m[i] = m.get(i, 0) + 2; r = dict(am.rad); r[i] = 2
+        out.append(AM(am.zs, am.edges, m, r, "variant:add-mass-and-rad"))
+        m2 = dict(am.mass); m2.pop(i, None); out.append(AM(am.zs, am.edges, m2, r, "variant:add-rad-only"))
+    return out
+
+
+def random_like(rng):
+    import random as _r
+    return _r.Random(rng.random())
+
+
 def near_misses(rng):
     """pairs with equal formula and degree sequence that are not isomorphic, and label-moved variants"""
+    base = list(itertools.islice(gens.standard_stream(random_like(rng), "quick"), 0, 400, 3))
+    for am in base:
+        if am.n() <= 14:
+            yield am
+            for v in label_variants(am, rng):
+                yield v
     sk = gens.SKELETONS
     for a, b in (("shrikhande", "rook4x4"), ("ring12", "ring6+ring6"), ("2xring4", "ring8"), ("prism3", "K33"), ("cube", "2xK4")):
         for name in (a, b):
